@@ -73,8 +73,12 @@ func runC06(c *Ctx) {
 		return "", -1
 	}
 	nRead, nWrite := 0, 0
-	for i, ci := range callsIn(pp, Ref{"handshake", "Machine", "completed"}) {
-		a := callArgs(ci)
+	for i, ec := range effectiveCalls(pp, Ref{"handshake", "Machine", "completed"}, 2) {
+		ci, a := ec.In, ec.Args
+		if len(a) < 3 || a[1] == nil || a[2] == nil {
+			c.Unknown("C06.key-roles", fmt.Sprintf("ProcessPacket:completed#%d", i), "the keys handed to completed() are computed inside a helper: unrecognised shape")
+			continue
+		}
 		k1, i1 := origin(a[1])
 		k2, i2 := origin(a[2])
 		cons := fmt.Sprintf("ProcessPacket:completed#%d", i)
